@@ -431,6 +431,29 @@ Proof.
   - apply (clear_inv c s p I).
 Qed.
 
+(* what the state-reading operations return, in terms of the inputs so far *)
+Theorem sstep_output c s p o : Inv c s p -> op_ok o ->
+  match o with
+  | OStep _ xsh xs inj =>
+      xsh = cshape NM c ->
+      exists s', sstep NM c s o = SOk (s', SOFloat NM (cshape NM c) (cur_out c ((xs, inj) :: p)))
+  | OCurrent _ => sstep NM c s o = SOk (s, SOFloat NM (cshape NM c) (cur_out c p))
+  | OSpike _ => sstep NM c s o = SOk (s, SOBool NM (cshape NM c) (spike_hist c p 0))
+  | OClear _ => sstep NM c s o = SOk (clear NM c s, SOUnit NM)
+  | _ => True
+  end.
+Proof.
+  intros I Hok. destruct o as [xsh xs inj| | |ssh sel|ssh sel|ssh sel|ssh sel|]; cbn [sstep]; auto.
+  - intros ->. destruct Hok as (Hx & Hi). destruct (forward_ok c s p xs inj I (conj Hx Hi)) as (s' & Hf & _).
+    exists s'. exact Hf.
+  - rewrite (current_of_inv c s p I), (rshape_of_wfr _ _ (inv_ws _ _ _ I)), (rshape_of_wfr _ _ (inv_wc _ _ _ I)).
+    destruct (ckind NM c); reflexivity.
+  - rewrite (rshape_of_wfr _ _ (inv_ws _ _ _ I)), (peek_row_at _ _ (inv_ws _ _ _ I)).
+    assert (E : at_ (spk NM s) 1 = spike_hist c p 0).
+    { apply (inv_hs _ _ _ I 0). destruct (inv_ws _ _ _ I) as ((Hn & _) & _). exact Hn. }
+    rewrite E. reflexivity.
+Qed.
+
 (* an operation that raises changes neither the synapse nor the history *)
 Lemma sstep_err_spec c s p o e : Inv c s p -> op_ok o -> sstep NM c s o = SErr e -> spec_step c p o = p.
 Proof.
